@@ -1041,7 +1041,7 @@ const NAMES: [&str; 12] = ["a", "b", "ab", ".a", ".b", "-", "[", "*", "a]", "sub
 const CONT_BELOW: [&str; 9] = ["-", ".", " ", "+", ",", "!", "#", "%", "-"];
 /// … and, for contrast, characters that sort after it (incl. 2-, 3- and 4-byte UTF-8)
 const CONT_ABOVE: [&str; 8] = ["0", "_", "a", "~", "\u{e9}", "\u{ff5e}", "\u{10000}", ":"];
-const TAILS: [&str; 5] = ["", "bar", "d", "x", "\u{e9}"];
+const TAILS: [&str; 7] = ["", "bar", "d", "x", "\u{e9}", "A1", "9"];
 
 fn gen_dir(r: &mut Rng, plain: bool, prefix: &str, depth: usize, out: &mut Vec<Entry>) {
     let n = if depth == 0 { 4 + r.below(6) } else { 1 + r.below(5) };
@@ -1178,9 +1178,12 @@ fn gen_tree(r: &mut Rng) -> Vec<Entry> {
 
 /// atoms that are likely to match something
 const PRODUCTIVE: [&str; 16] = ["*", "*", "?", "??", "[ab]*", ".*", "*b", "a*", "[!a]*", "[a-b]", "*]", ".?", "[!.]*", "[[:alpha:]]*", "?*", "[*[]"];
-const ATOMS: [&str; 30] = [
+const ATOMS: [&str; 46] = [
     "a", "b", "ab", "*", "?", "[ab]", "[!a]", "[a-b]", "[a", "a]", "[", "]", ".", "..", ".*", "-", "sub", "*b", ".?", "[.]a",
     "[*]", "[?]", "!", "[[:alpha:]]", "[[:wrong:]]", "a*", "[.", "??", "[]-]", "[!.]*",
+    // the rest of the bracket-expression family that a glob pattern can reach in yash-fnmatch
+    "[[:punct:]]*", "[[:lower:]]*", "*[[:digit:]]*", "*[[:upper:]]*", "[[:alnum:]]?", "[[.-.]]*", "[[=a=]]*", "[[.a.]b]*", "[a-]*", "[!-]*",
+    "[^a]*", "[z-a]*", "[[:alpha:][:digit:]]*", "[[:alpha:]-z]", "[][]", "[!]a]*",
 ];
 /// texts that only make sense through a variable or quotes (contain a backslash or a slash)
 const VAR_ATOMS: [&str; 18] = [
